@@ -38,10 +38,13 @@ class Universe:
         self.function_graphs = set(function_graphs)
         self.nodes: list = []
         self.values: list = []
+        self.dead = False  # a constructor failed unexpectedly: later calls cannot be executed
 
     # -- the public calls -------------------------------------------------------------------
     def apply(self, c) -> str:
         op, g, n, ns, opt, name, names, names2, v = c
+        if self.dead:
+            return "dead"
         try:
             if op == "Graph":
                 ins = [ir.Value(name=_nm(x)) for x in names]
@@ -81,6 +84,10 @@ class Universe:
                 raise AssertionError(op)
         except ValueError:
             return "raise"
+        except Exception as e:  # noqa: BLE001 - an unexpected exception is an observation, not a harness failure
+            if op in ("Graph", "Node"):
+                self.dead = True
+            return f"raise:{type(e).__name__}"
         return "ok"
 
     def project(self) -> dict:
@@ -247,6 +254,8 @@ def record_trace(seed: int, length: int, ng: int = 3, max_nodes: int = 8) -> lis
         c = random_call(rng, u, max_nodes)
         out = u.apply(c)
         events.append({"c": c, "out": out, "post": u.project()})
+        if u.dead:
+            break
     return events
 
 
